@@ -993,17 +993,15 @@ class Server:
                         f = self.commands_mapping.get(cmd)
                         if f is not None:
                             coro = f(connection, rest)
-                            if handlers:
-                                # commands of one session are handled in
-                                # order they arrived: handler starts when
-                                # handlers of previous commands returned
-                                coro = self._run_after(handlers.copy(), coro)
-                            task = asyncio.create_task(coro)
-                            handlers.add(task)
-                            pending.add(task)
                         else:
-                            message = f"{cmd!r} not implemented"
-                            connection.response("502", message)
+                            coro = self._not_implemented(connection, cmd)
+                        # commands of one session are handled and answered
+                        # in order they arrived: handler starts when
+                        # handlers of previous commands returned
+                        coro = self._run_after(handlers.copy(), connection, coro)
+                        task = asyncio.create_task(coro)
+                        handlers.add(task)
+                        pending.add(task)
         except asyncio.CancelledError:
             raise
         except Exception:
@@ -1035,13 +1033,25 @@ class Server:
                 await asyncio.wait(tasks_to_wait)
 
     @staticmethod
-    async def _run_after(tasks, coro):
+    async def _not_implemented(connection, cmd):
+        connection.response("502", f"{cmd!r} not implemented")
+        return True
+
+    @staticmethod
+    async def _run_after(tasks, connection, coro):
         try:
-            await asyncio.wait(tasks)
+            if tasks:
+                await asyncio.wait(tasks)
         except BaseException:
             coro.close()
             raise
-        return await coro
+        try:
+            return await coro
+        except errors.PathIOError:
+            # answered here and not by dispatcher: reply is queued before
+            # handler of the next command starts
+            connection.response("451", "file system error")
+            return True
 
     @staticmethod
     def get_paths(connection, path):
